@@ -290,9 +290,13 @@ def _operator_cells(tier):
                     if len(wdt) <= 3:
                         yield "v = %s\nx = '{v:*<%s}'" % (v, spec)
 
-def _operators_shard(shard, n, tier, seed, budget_s):
+def _operators_shard(shard, n, tier, seed, budget_s, asan=False):
     from . import pools
-    w = Worker()
+    if asan:
+        from kv import sanitize
+        w = sanitize.asan_worker()
+    else:
+        w = Worker()
     t_end = time.time() + budget_s
     rep = _new_rep()
     for idx, body in enumerate(_operator_cells(tier)):
@@ -307,7 +311,10 @@ def _operators_shard(shard, n, tier, seed, budget_s):
         rep["distinct"].add(sha(body))
         if r.get("outcome") not in ("compile_error",):
             rep["compiled"] += 1; rep["ran"] += 1
-        _observe(rep, "exec", src, r, "operators")
+        if asan and r.get("outcome") == "died" and "AddressSanitizer" in (r.get("detail") or ""):
+            rep["violations"].append({"key": "asan:%s" % sha(r["detail"][-300:]), "summary": "AddressSanitizer report while running an operator cell: " + r["detail"][-300:], "case": {"src": src, "detail": r["detail"]}})
+            continue
+        _observe(rep, "exec", src, r, "operators-asan" if asan else "operators")
         if len(rep["samples"]) < 1 and idx > 50:
             rep["samples"].append({"cell": body})
     w.close()
@@ -415,10 +422,18 @@ def run(tier, seed):
     w.close()
     chk.merge_shard(wrep)
     only = os.environ.get("KV_STREAMS")
+    if not quick:
+        # sanitizer layer: the operators stream again on an AddressSanitizer build of the worker
+        from kv import sanitize
+        ok, log = sanitize.build_asan()
+        if ok:
+            streams.append(("operators-asan", _operators_shard, 1200))
+        else:
+            chk.inconclusive.append("the AddressSanitizer build failed (sanitizer part skipped): " + log[-200:].replace("\n", " "))
     for name, fn, budget in streams:
         if only and name not in only.split(","):
             continue
-        shards = fan_out(fn, tier=tier, seed=seed, budget_s=budget)
+        shards = fan_out(fn, tier=tier, seed=seed, budget_s=budget, **({"asan": True} if name == "operators-asan" else {}))
         st = {"evaluations": 0, "distinct": 0, "compiled": 0, "ran": 0, "formatted": 0, "hangs": 0, "excluded": 0,
               "deaths": {}, "budget_exhausted": False}
         for s in shards:
@@ -447,7 +462,9 @@ def run(tier, seed):
         cov["distinct_nontrivial"] += st["distinct"]
         cov["excluded_alloc_or_stack"] += st["excluded"]
         cov["hangs"] += st["hangs"]
-    cov["rule"] = ("four streams: (a) corpus programs and their single-token delete/duplicate/swap neighbourhood (%s), each distinct text compiled, "
+    cov["rule"] = ("five streams (e: VM-level operations - unary, binary, compound assignment, index, index-assign, slices with extreme bounds, unpacking, packed calls, match - over "
+                   "the boundary pool, literal escapes with 0-13 digits, format specifications with widths / precisions up to 2^64; in the thorough tier again on an AddressSanitizer build): "
+                   "(a) corpus programs and their single-token delete/duplicate/swap neighbourhood (%s), each distinct text compiled, "
                    "formatted and - if it touches neither io nor os - run under a 40 ms execution limit with tests on and its result/error displayed; "
                    "(b) token soups and character noise over corpus programs; (c) every native function of the prelude (walked at run time) x argument "
                    "tuples of arity 0-%d over a %d-value boundary pool; (d) callbacks / arguments / element metakeys that touch the receiver of the "
